@@ -304,6 +304,10 @@ def call_function(eng, fref, args, kwargs, s, bound=False):
 def apply_contract(eng, c, fi, b, s, label):
     """use contract c at a call site with parameter binding b in state s"""
     pre = s
+    if c.opts.get("entry_defined") and not (eng.contract is not None and eng.contract.opts.get("entry_defined")):
+        # has_table / first_table are defined over the heap at function entry: the callee's reading and the caller's agree
+        # only if the caller cannot have changed a stored table, i.e. has an empty frame itself
+        raise Unsupported(f"{c.qualname}: contract over entry-defined predicates used from a function without that discipline")
     # materialise arguments
     for n, v in list(b.items()):
         if isinstance(v, (SeqView, PyConst)):
@@ -361,11 +365,16 @@ def apply_contract(eng, c, fi, b, s, label):
                 res = eng.with_ty(s, res, sty)
         if not (rty in PRIM):
             s.assume(z3.Implies(is_ref(res.t), get_ref(res.t) < s.heap.alloc))
+    for gname, gexpr in c.ghost_on_return.items():
+        gv = eng.as_val(s, spec_value(eng, gexpr, spec_st, b))
+        s.heap = s.heap.set_field(get_ref(res.t), "$" + gname, gv.t)
     post_st = State(s.env, s.heap, s.pc, old, s.ghost)
     for e in c.ensures:
         s.assume(spec_bool(eng, e, post_st, b, result=res))
     if c.fresh and isinstance(res, SV) and res.ty not in PRIM:
         s.assume(get_ref(res.t) >= old.heap.alloc)
+    if "result_view" in c.opts:
+        res = spec_value(eng, ast.parse(c.opts["result_view"].strip(), mode="eval").body, post_st, b)
     return [(res, s)]
 
 
